@@ -24,13 +24,13 @@ calls, random yields injected at line events and inside the driver) adds schedul
 
 Verdict for every exchange() call of either thread (property statement): it returns a bytes-like object or None, or
 raises an nfc.clf.CommunicationError subclass or IOError/OSError.  Anything else escaping
-    -> frontend/escape/<call>/<exception@function>/<other activity>@<interleaving point>
+    -> frontend/escape/<exchange-initiator|-target|-no-target>/<exception@function>/<other activity>@<point class>
 Finer, where the frontend's own view is unambiguous:
     * the driver entry made for this call returned X / raised a documented error E: exchange() returns X / raises an
-      E (-> frontend/wrong-report/<call>/driver-<X|E>-><outcome>),
+      E (-> frontend/wrong-report/<exchange-...>/driver-<data|none|E>-><outcome>),
     * the call acquired the frontend lock exactly once and there was no device at that moment: IOError
-      (-> frontend/wrong-report/<call>/closed-><outcome>),
-    * the call tries to take the non-reentrant frontend lock while it holds it (-> frontend/self-deadlock/<call>).
+      (-> frontend/wrong-report/<exchange-...>/closed-><outcome>),
+    * the call tries to take the non-reentrant frontend lock while it holds it (-> frontend/self-deadlock/<exchange-...>@<function>).
 sense(), listen(), max_send_data_size and max_recv_data_size are run as B as well (they share the lock and the device
 test with exchange()); the property statement speaks of exchange() only, so what escapes from them is recorded as an
 observation (frontend_not_judged), not as a violation.
@@ -243,7 +243,7 @@ def _ns():
                 log.append((method, spec[1]))
                 raise make_error(spec[1])
             value = default() if spec is None else spec[1]
-            log.append((method, "ret"))
+            log.append((method, "ret", value))
             return value
 
         def close(self):
@@ -453,7 +453,8 @@ def _thread(world, role, fn, clf, uid, results, trace):
         return local
 
     def glob(frame, event, arg):
-        if frame.f_code.co_filename == clf_file:
+        code = frame.f_code
+        if code.co_filename == clf_file and code.co_qualname.startswith("ContactlessFrontend."):
             return local
         return None
 
@@ -571,7 +572,7 @@ def cleanup(out):
 EX_METHODS = ("send_cmd_recv_rsp", "send_rsp_recv_cmd")
 
 
-def judge_call(R, case, call, role, o, w, where):
+def judge_call(R, case, call, role, o, w, where, held=None):
     """one finished call of `role`; `where` = '<other activity>@<point>' for the signature"""
     short = _short(o)
     if not _judged(call):
@@ -582,18 +583,22 @@ def judge_call(R, case, call, role, o, w, where):
         return
     R.count("frontend_exchanges_judged")
     R.seen("frontend_outcomes", "%s -> %s" % (call, short))
+    snaps = w.snaps.get(role, [])
+    cc = call_class(call, snaps)
     if role in w.self_deadlock:
-        R.violation("frontend/self-deadlock/%s@%s" % (call, w.self_deadlock[role]),
+        R.violation("frontend/self-deadlock/%s@%s" % (cc, w.self_deadlock[role]),
                     "%s tries to take the non-reentrant frontend lock while holding it (it would never return)" % call,
                     case)
         return
     if o["kind"] == "escape":
         R.count("frontend_outcome_escape")
-        R.violation("frontend/escape/%s/%s/%s" % (call, o["sig"], where),
-                    "%s escapes clf.exchange() (%s, other thread: %s): %s" % (o["type"], call, where, o["text"]), case)
+        R.violation("frontend/escape/%s/%s/%s" % (cc, o["sig"], where),
+                    "%s escapes clf.exchange() (%s, other thread %s held at %s): %s"
+                    % (o["type"], call, where, point_name(held) if held else "-", o["text"]), case)
         return
     if o["kind"] == "value":
-        R.violation("frontend/return-type/%s/%s" % (call, o["type"]), "exchange() returned %s" % o["text"], case)
+        R.violation("frontend/return-type/%s/%s" % (cc, o["type"]),
+                    "exchange() returned %s" % o["text"], case)
         return
     if o["kind"] == "data":
         R.count("frontend_outcome_data")
@@ -605,15 +610,14 @@ def judge_call(R, case, call, role, o, w, where):
         R.count("frontend_outcome_enodev")
     # finer rules
     calls = [c for c in w.drv.get(role, []) if c[0] in EX_METHODS]
-    snaps = w.snaps.get(role, [])
     if len(calls) == 1:
         how = calls[0][1]
         if how == "ret":
-            spec = w.script.get(role, {}).get(calls[0][0])
-            want = "none" if (spec is not None and spec[1] is None) else "data"
-            ok = o["kind"] == want and (want == "none" or o["value"][2:] == case["_uid"][role])
+            got = calls[0][2]
+            want = "none" if got is None else "data"
+            ok = o["kind"] == want and (want == "none" or o["value"] == bytes(got))
             if not ok:
-                R.violation("frontend/wrong-report/%s/driver-%s->%s" % (call, want, short),
+                R.violation("frontend/wrong-report/%s/driver-%s->%s" % (cc, want, short),
                             "the driver returned %s for this call but exchange() gave %s" % (want, short), case)
         else:
             if how.startswith("IOError:"):
@@ -622,31 +626,56 @@ def judge_call(R, case, call, role, o, w, where):
             else:
                 ok = o["kind"] == "comm" and o["type"] == how
             if not ok:
-                R.violation("frontend/wrong-report/%s/driver-%s->%s" % (call, how.replace(":", "-"), short),
+                R.violation("frontend/wrong-report/%s/driver-%s->%s" % (cc, how.replace(":", "-"), short),
                             "the driver raised %s for this call but exchange() gave %s" % (how, short), case)
     elif len(calls) == 0 and len(snaps) == 1:
         if snaps[0][0]:
             R.count("frontend_exchange_saw_no_device")
             if o["kind"] != "oserror":
-                R.violation("frontend/wrong-report/%s/closed->%s" % (call, short),
+                R.violation("frontend/wrong-report/%s/closed->%s" % (cc, short),
                             "there was no device when exchange() held the lock but it gave %s, not IOError" % short, case)
         elif snaps[0][1] == "NoneType":
             R.count("frontend_no_target_calls")
 
 
+def call_class(call, snaps=()):
+    """signature name of a judged call: the role in which exchange() ran (what it saw when it got the lock, else
+    what the case set up), not the time-out / script variant"""
+    if snaps:
+        return {"RemoteTarget": "exchange-initiator", "LocalTarget": "exchange-target"}.get(snaps[-1][1],
+                                                                                          "exchange-no-target")
+    if call.startswith("ex_lt"):
+        return "exchange-target"
+    if call == "ex_none":
+        return "exchange-no-target"
+    return "exchange-initiator"
+
+
+def activity_class(name):
+    if name is None:
+        return "none"
+    if name.startswith("ex_"):
+        return "exchange"
+    return name.split("_")[0].rstrip("13")          # close, open, sense, listen, max
+
+
 def where_of(case, out, role):
-    """'<what the other thread did>@<interleaving point>'"""
+    """'<what the other thread did>@<class of the interleaving point>' (mechanism level: no lines, no variants)"""
     first = case["first"]
-    other = case.get("a") if role == "B" else case.get("b")
+    other = activity_class(case.get("a") if role == "B" else case.get("b"))
     if first == "solo":
         return "solo"
     if first in ("seqA", "seqB"):
         mine_first = (first == "seqA") == (role == "A")
-        return "%s@%s" % (other, "after-this-call" if mine_first else "done")
-    if out["held"] is None:
+        return "%s@%s" % (other, "after-this-call" if mine_first else "before-this-call")
+    pt = out["held"]
+    if pt is None:
         return "%s@not-held" % other
-    p = point_name(out["held"])
-    return "%s@%s-%s" % (other, "this-held-at" if first == role else "other-held-at", p)
+    if first == role:
+        return "%s@this-held-%s" % (other, pt[2])
+    if pt[0] == "drv":
+        return "%s@other-held-in-driver.%s" % (other, pt[1])
+    return "%s@other-held-%s" % (other, pt[2])
 
 
 def judge(case, out, R):
@@ -701,7 +730,7 @@ def judge(case, out, R):
         R.count("frontend_timeout_zero")
     for role, call in (("A", a), ("B", b)):
         if call and role in res:
-            judge_call(R, case, call, role, res[role], w, where_of(case, out, role))
+            judge_call(R, case, call, role, res[role], w, where_of(case, out, role), out["held"])
 
 
 # =============================================================================================================
@@ -713,21 +742,23 @@ def count_points(a, b, role):
     if role == "A":
         case["init"] = _calls()[1][b][0]
     out = exec_case(case)
-    n = len(out["world"].points.get(role, []))
-    return n, case, out
+    return list(out["world"].points.get(role, [])), case, out
 
 
 def run_pair(R, a, b, rng, frac):
-    """all one-preemption schedules of the pair (a fraction `frac` of the hold points for calls not judged)"""
+    """all one-preemption schedules of the pair.  frac < 1 (quick tier): of the source lines at which the held thread
+    owns the lock (the other one then has to wait whatever the line is) only that fraction is used, and for calls
+    that are not judged that fraction of all points"""
+    full = _judged(b)
     for role in ("A", "B"):
-        n, case, out = count_points(a, b, role)
+        pts, case, out = count_points(a, b, role)
         if role == "B" or _judged(a):
             judge(case, out, R)                    # each call alone (single threaded behaviour)
         cleanup(out)
         if out["setup"] or out["hung"]:
             return False
-        for k in range(n):
-            if frac < 1.0 and rng.random() >= frac:
+        for k, pt in enumerate(pts):
+            if frac < 1.0 and (not full or (pt[0] == "line" and pt[2] == "holding-lock")) and rng.random() >= frac:
                 continue
             case = {"a": a, "b": b, "first": role, "k": k}
             out = exec_case(case)
@@ -881,12 +912,12 @@ def stress_round(R, cfg, record=True):
         if sdl:
             R.violation("frontend/self-deadlock/exchange@stress", "exchange() re-acquires the frontend lock it holds", case)
         elif o["kind"] == "escape":
-            R.violation("frontend/escape/ex_any/%s/stress" % o["sig"],
+            R.violation("frontend/escape/exchange-any/%s/stress" % o["sig"],
                         "%s escapes clf.exchange() in a stress round: %s" % (o["type"], o["text"]), case)
         elif o["kind"] == "value":
-            R.violation("frontend/return-type/ex_any/%s" % o["type"], "exchange() returned %s" % o["text"], case)
+            R.violation("frontend/return-type/exchange-any/%s" % o["type"], "exchange() returned %s" % o["text"], case)
         elif o.get("foreign"):
-            R.violation("frontend/wrong-report/ex_any/foreign-data",
+            R.violation("frontend/wrong-report/exchange-any/foreign-data",
                         "exchange() returned data that is not the driver's answer to this call: %r" % o["value"], case)
     R.count("frontend_stress_rounds")
     R.count("frontend_stress_exchanges", nex)
@@ -906,7 +937,7 @@ def stress_round(R, cfg, record=True):
 # =============================================================================================================
 def plan_c13(tier):
     if tier == "quick":
-        return [{"nshards": 2, "idx": i, "frac": 0.34, "rounds": 10, "threads": [3, 4], "calls": [10, 30], "timeout": 120}
+        return [{"nshards": 2, "idx": i, "frac": 0.25, "rounds": 10, "threads": [3, 4], "calls": [10, 30], "timeout": 120}
                 for i in range(2)]
     return [{"nshards": 4, "idx": i, "frac": 1.0, "rounds": 150, "threads": [3, 6], "calls": [20, 80], "timeout": 900}
             for i in range(4)]
@@ -922,8 +953,7 @@ def run_c13(desc, R, rng):
             for j, (a, b) in enumerate(pairs):
                 if j % desc["nshards"] != desc["idx"]:
                     continue
-                frac = 1.0 if _judged(b) else desc["frac"]
-                if not run_pair(R, a, b, rng, frac):
+                if not run_pair(R, a, b, rng, desc["frac"]):
                     ok = False
                     break
             lo, hi = desc["threads"]
